@@ -202,6 +202,8 @@ class ConfigParser(object):
     self._delegate = parser_delegate
     self._within_block = False
     self._statements_queue = collections.deque()
+    # Whether the token ending the previous statement has yet to be consumed.
+    self._pending_advance = False
     self._advance_one_token()
 
   def __iter__(self):
@@ -226,6 +228,13 @@ class ConfigParser(object):
     """
     if self._statements_queue:
       return self._statements_queue.popleft()
+
+    # Move past the end of the previous statement only now, so that a tokenizer
+    # error at the start of this statement is raised after the previous
+    # statement has been returned (and applied) rather than instead of it.
+    if self._pending_advance:
+      self._pending_advance = False
+      self._advance_one_token()
 
     self._skip_whitespace_and_comments()
     if self._current_token.type == tokenize.ENDMARKER:
@@ -262,7 +271,7 @@ class ConfigParser(object):
       self._raise_syntax_error('Expected newline.')
 
     if self._current_token.type != tokenize.ENDMARKER:
-      self._advance_one_token()
+      self._pending_advance = True
 
     return statement
 
